@@ -334,8 +334,13 @@ def diffsig(exp, got, defined):
     if e is not None and e[0] == 'ident' and e[1] in defined:
         return 'hidden-or-uninvoked-macro-name-replaced'
     if e is not None and g is not None and e[0] == 'string' and g[0] == 'string':
-        if e[1].replace(' ', '') == g[1].replace(' ', ''):
-            return 'stringification-white-space'
+        ei, gi = e[1][1:-1], g[1][1:-1]
+        if gi != ei and gi.rstrip(' ') == ei:
+            return 'stringification-extra-trailing-space'
+        if gi != ei and gi.lstrip(' ') == ei:
+            return 'stringification-extra-leading-space'
+        if ei.replace(' ', '') == gi.replace(' ', ''):
+            return 'stringification-inner-white-space'
         return 'stringification-spelling'
     if e is None:
         return 'extra-tokens'
@@ -987,7 +992,8 @@ def main(chk):
         'distinct_nontrivial': len(distinct),
         'rule': 'every macro table x text / directive history of the bounded spaces M1, M2, line splitting, M3 (curated), M4 is run through '
                 'the real preprocessor (tokens mode; -E text re-lexed) and compared with cppref (Prosser hide sets); GNU cpp -std=c11 '
-                '-pedantic-errors must agree with cppref before a disagreement is reported',
+                '-pedantic-errors must agree with cppref before a disagreement is reported; distinct_nontrivial = number of distinct '
+                'expanded token sequences among the cases the model accepts (cases the model rejects are counted in expected_reject)',
         'ambiguous': ambiguous,
         'expected_reject': tot['rej'],
         'per_stratum': tot['n'],
